@@ -265,7 +265,8 @@ theorem call_sim_sub {ms : MacroSem} {csubs : CSubEnv} {subs : SubEnv} {env : CE
     (hcsub : lookupS name csubs = some sub)
     (hCbody : ∃ F, ∀ f, F ≤ f →
       execCHs ms csubs f sub.body { σ with locals := (sub.params.map (·.1)).zip vs } = .ok σr)
-    (hCret : lookupS "$ret" σr.locals = some (.bv ret.width xC))
+    {vr : Val} (hCret : lookupS "$ret" σr.locals = some vr)
+    (hCconv : convC { signed := false, width := 64 } sub.ret vr = .ok (.bv ret.width xC))
     (hval : convBits ⟨ret.signed, 64⟩ ret r = xC)
     (hnew : σb.new = σr.new) (hwr : σb.written = σr.written) (hmem : σb.mem = σr.mem) (hst : σb.stores = σr.stores) :
     ∃ (P : Pend) (rest : List Pend) (σ' σC : MState),
@@ -281,7 +282,7 @@ theorem call_sim_sub {ms : MacroSem} {csubs : CSubEnv} {subs : SubEnv} {env : CE
     hpend, ⟨max FA FB + 1, ?_⟩, ⟨fB + 3, hIL⟩, ?_, ?_⟩
   · intro f hf
     obtain ⟨f', rfl⟩ : ∃ f', f = f' + 1 := ⟨f - 1, by omega⟩
-    exact evalCH_call_sub (hA f' (by omega)) hcsub (hB f' (by omega)) hCret
+    exact evalCH_call_sub (hA f' (by omega)) hcsub (hB f' (by omega)) hCret hCconv
   · rw [hval] at hsim; exact hsim
   · exact ⟨h1.trans hnew, h2.trans hwr, h3.trans hmem, h4.trans hst, h5, h6, h7, h8, rfl, h9⟩
 
